@@ -56,6 +56,36 @@ Theorem c18_dial_target_no_scheme (is_ip : str -> bool) e path dial socks :
 Proof. exact (dial_target_no_scheme is_ip e path dial socks). Qed.
 Print Assumptions c18_dial_target_no_scheme.
 
+(** Every connection an upstream opens goes to its one target. The plain udp
+    upstream (scheme udp or none) dials twice — the UDP socket, and a TCP
+    connection when a UDP reply comes back truncated — and both go to the
+    configured host and port (dial_addr wins over the URL host, default 53
+    filled in). *)
+Theorem c18_every_dial_site_same_target t site :
+  In site (dial_sites t) -> snd (fst site) = t_host t /\ snd site = t_port t.
+Proof. exact (dial_sites_same t site). Qed.
+Print Assumptions c18_every_dial_site_same_target.
+
+Theorem c18_udp_both_dial_sites (is_ip : str -> bool) nm def e path dial socks t :
+  In (nm, TUdp, def) scheme_table ->
+  wf_ep e = true -> url_ok_ep e = true -> wf_path path = true -> dial_wf dial = true ->
+  new_upstream is_ip (lit nm ++ lit "://" ++ render_ep e ++ path) (render_dial dial) socks = Some t ->
+  let h := ep_host (eff_ep e dial) in
+  let p := port_or (ep_port (eff_ep e dial)) def in
+  dial_sites t = [(NetUdp, h, p); (NetTcp, h, p)].
+Proof. exact (udp_sites_configured is_ip nm def e path dial socks t). Qed.
+Print Assumptions c18_udp_both_dial_sites.
+
+Theorem c18_udp_both_dial_sites_no_scheme (is_ip : str -> bool) e path dial socks t :
+  wf_ep e = true -> url_ok_ep e = true -> wf_path path = true -> dial_wf dial = true ->
+  contains (lit "://") (render_ep e ++ path) = false ->
+  new_upstream is_ip (render_ep e ++ path) (render_dial dial) socks = Some t ->
+  let h := ep_host (eff_ep e dial) in
+  let p := port_or (ep_port (eff_ep e dial)) 53 in
+  dial_sites t = [(NetUdp, h, p); (NetTcp, h, p)].
+Proof. exact (udp_sites_configured_no_scheme is_ip e path dial socks t). Qed.
+Print Assumptions c18_udp_both_dial_sites_no_scheme.
+
 (** With Opt.Bootstrap: resolving the host through the bootstrap server
     changes neither the host that is resolved nor the port — the connection
     goes to (address of the host the user wrote) : (the port the user wrote,
